@@ -1348,7 +1348,7 @@ func checkDriverOrder(c *Ctx, r *Report, tr map[string]*trSite) {
 	name := c.FnName(m.Fn)
 	r.Check(mustPrecede(m.Fn, m.OpenCall, m.R1Call) && mustPrecede(m.Fn, m.R1Call, m.R3Call), name+"|open ≺ rakp1 ≺ rakp3", m.OpenCall.Pos(), "ordered on every path", "handshake exchanges are not ordered open ≺ RAKP1 ≺ RAKP3 on every path")
 	// a field of the caller's options, read where a request is built
-	fromOpts := func(v ssa.Value, src string) bool {
+	fromOpts1 := func(v ssa.Value, src string) bool {
 		ld, isLd := v.(*ssa.UnOp)
 		if !isLd || ld.Op != token.MUL {
 			return false
@@ -1357,7 +1357,32 @@ func checkDriverOrder(c *Ctx, r *Report, tr map[string]*trSite) {
 			return true
 		}
 		root, last := canonRootSel(ld.X)
-		return root == ssa.Value(m.Opts) && last == src
+		if root == ssa.Value(m.Opts) && last == src {
+			return true
+		}
+		aps := viewAPs(m.Fn, ld.X)
+		for _, a := range aps {
+			if a.Root != ssa.Value(m.Opts) || a.SelString() != src {
+				return false
+			}
+		}
+		return len(aps) > 0
+	}
+	// (the value may reach the literal through the parameter of a spliced helper)
+	fromOpts := func(v ssa.Value, src string) bool {
+		if v == nil {
+			return false
+		}
+		if fromOpts1(v, src) {
+			return true
+		}
+		origins := viewOrigins(m.Fn, v)
+		for _, o := range origins {
+			if !fromOpts1(stripConv(o), src) {
+				return false
+			}
+		}
+		return len(origins) > 0
 	}
 	// Open Session Request: the privilege level asked for is the caller's
 	if reqLit := c.openRequestLiteral(m); reqLit != nil {
